@@ -118,6 +118,21 @@ let judge_line (line : string) (impl : string) : string =
                          List.iter (fun (k, _) -> if not (List.mem k names) && !res = "ok" then
                                        res := Printf.sprintf "bad:op%d changed-%s" i (hex_of_string k)) changed
                        | None -> ())
+                  | XEval src ->
+                    (* only identifiers that occur in the expression can change *)
+                    let txt = string_of_bytes src in
+                    let ids = ref [] and b = Buffer.create 8 in
+                    let flush () = if Buffer.length b > 0 then (ids := Buffer.contents b :: !ids; Buffer.clear b) in
+                    String.iter (fun c -> if (c >= 'a' && c <= 'z') || (c >= 'A' && c <= 'Z') || (c >= '0' && c <= '9') || c = '_' || Char.code c >= 128
+                                  then Buffer.add_char b c else flush ()) txt;
+                    flush ();
+                    (match !cur with
+                     | Some before ->
+                       let changed = List.filter (fun (k, v) -> List.assoc_opt k before <> Some v) after
+                                     @ List.filter (fun (k, _) -> not (List.mem_assoc k after)) before in
+                       List.iter (fun (k, _) -> if not (List.mem k !ids) && !res = "ok" then
+                                     res := Printf.sprintf "bad:op%d changed-%s" i (hex_of_string k)) changed
+                     | None -> ())
                   | _ -> ());
                  cur := Some after
                end
